@@ -36,7 +36,7 @@ claim("C04",
 claim("C08",
       "Symbolic one-step induction over the HSMS-SS responder: the real dispatchFrame and control responders are run on ONE frame whose 10 header bytes (+0/1 body byte) are all symbolic, from every responder state, "
       "and the frames sent back, delivery, disconnect and the resulting selected/open-transaction state are compared with an independent E37/E37.1 responder; because the post-state is asserted equal to the reference post-state the step covers frame sequences of any length. Sequences of 2 (thorough 3) frames are run as a redundant confirmation.",
-      "Trusted: executor + models, z3, the reference responder, the model runtime vrt. Outside: second-TCP-connection refusal (real listener), async sender ordering, session-id validation, T7/linktest goroutines.")
+      "Trusted: executor + models, z3, the reference responder, the model runtime vrt. Outside: a real OS listener (the second-connection refusal is decided on the real accept loop over a scripted net.Listener: late dialers are closed at once, the live session undisturbed), async sender ordering, session-id validation, T7/linktest goroutines.")
 
 claim("C19",
       "Bounded symbolic model check of the linktest failure accounting: the two reducers on ALL inputs against a transcription of the documented rules, and the real runLinktest loop under virtual time over every history of 4 (thorough 6) rounds "
